@@ -3,7 +3,7 @@
    tests are independent - and leaves both flags set; hence after ANY sequence of calls to initialize / optimize / run (= __call__)
    on a fresh field that contains a run(), an optimisation has been executed (and an initialisation before it was needed).
    No arithmetic; closed under the global context. *)
-From Coq Require Import List Bool.
+From Coq Require Import List Bool String.
 Import ListNotations.
 Require Import MV.C18.Ops MV.C18.Gen MV.C18.Model.
 
@@ -63,3 +63,10 @@ Theorem stage_all :
       In SOpt (st_stages (exec_calls init_sets opt_sets p)) /\ In SInit (st_stages (exec_calls init_sets opt_sets p))) /\
   initf_sets_initialized = true /\ initv_sets_initialized = true.
 Proof. split; [exact run_step_spec | split; [exact protocol_optimizes | split; reflexivity]]. Qed.
+
+(* what _initialize_attributes leaves cached on the mesh (generated from the persistent= flags): the face-based field
+   nothing, the vertex-based field corner angles, cotangents and vertex normals - the known caches of finding
+   history/stale-geometry-cache; anything else cached there would be read back, stale, by later computations *)
+Theorem init_caches :
+  initf_cached = nil /\ initv_cached = ("corner_angles" :: "cotangent" :: "vertex_normals" :: nil)%string.
+Proof. split; reflexivity. Qed.
